@@ -422,7 +422,12 @@ fn run_embed(c: &EmbedCase) -> Verdict {
 }
 
 fn arb_costs() -> BoxedStrategy<(i32, i32, i32)> {
-    (1i32..=3, 1i32..=3, 1i32..=3).boxed()
+    // mostly the triples of the quantifier's sample {1,2,3}^3; the statement holds for any given
+    // costs >= 1, so one component in four is drawn from 4..=12
+    fn one() -> BoxedStrategy<i32> {
+        prop_oneof![12 => 1i32..=3, 3 => 4i32..=7, 1 => 8i32..=12].boxed()
+    }
+    (one(), one(), one()).boxed()
 }
 
 fn strategy(_t: Tier) -> BoxedStrategy<Case> {
@@ -473,7 +478,12 @@ fn enumerate(t: Tier, shard: usize, nshards: usize, f: &mut dyn FnMut(Case) -> b
                     }
                 }
             }
-            let list: Vec<(i32, i32, i32)> = if t == Tier::Thorough { all } else { nine.to_vec() };
+            let mut list: Vec<(i32, i32, i32)> = if t == Tier::Thorough { all } else { nine.to_vec() };
+            // triples outside {1,2,3}^3 (a dear XOR, a dear AND, a dear OR)
+            list.extend([(1, 4, 1), (1, 7, 2), (5, 1, 1), (1, 1, 6)]);
+            if t == Tier::Thorough {
+                list.extend([(1, 5, 2), (2, 9, 1), (4, 4, 1), (7, 2, 3), (1, 12, 1), (3, 1, 9)]);
+            }
             for x in 0..256u64 {
                 for (a, xc, o) in &list {
                     // SOP does not use the xor cost: skip triples that only differ in it
@@ -520,7 +530,7 @@ fn enumerate(t: Tier, shard: usize, nshards: usize, f: &mut dyn FnMut(Case) -> b
 pub fn def() -> PropDef {
     PropDef {
         id: "C18",
-        rule: "cases = (optimizer in {optimize_sop_mip, optimize_sopes_mip, optimize_esop_mip}, list of 1..3 functions of one n, gate costs (and, xor, or) in {1,2,3}^3). Oracle: (1) validity — one form per input; the cubes()/terms read back through pos_vars()/neg_vars()/vars() and Lut::from(form) denote exactly f_j; every Sop cube and Soes term is an implicant; (2) the cost of the returned forms recomputed by the harness under the documented model: gates of the DISTINCT cubes (and XOR terms) over all outputs x and/xor cost + per output (terms-1)+ x or (ESOP: xor) cost; (3) the exact optimum from the harness's own dynamic programme over all 3^n cubes (plus all 2^(n+1) XOR terms for SOPES): per-output covered set (SOP/SOPES) or XOR residual (ESOP) as state, each candidate decided once for a subset of outputs, its gates paid once — affordable for one output up to n=4 and 2..3 outputs up to n=2 (2 outputs: n=3); beyond that only `cost <= sum of the single-output optima` is asserted (sound, incomplete; labelled upper-bound-only). Violation = invalid form, or cost above the optimum / bound. Exhaustive: all single functions n<=2 with rotating cost triples, every single function of n=3 under 9 cost triples (quick) / all 27 (thorough), all ordered pairs n<=1 / n<=2, the pair (f, f) for every 4th (quick) / every (thorough) function of 3 variables, cost triples rotating over 5 fixed ones; generated lists of 1..3 functions, n<=4 (ESOP n<=3), all 27 cost triples. Non-trivial = some output needs >= 2 terms, or sharing between outputs lowers the optimum.",
+        rule: "cases = (optimizer in {optimize_sop_mip, optimize_sopes_mip, optimize_esop_mip}, list of 1..3 functions of one n, gate costs (and, xor, or) each from 1..=3 mostly and from 4..=12 one time in four). Oracle: (1) validity — one form per input; the cubes()/terms read back through pos_vars()/neg_vars()/vars() and Lut::from(form) denote exactly f_j; every Sop cube and Soes term is an implicant; (2) the cost of the returned forms recomputed by the harness under the documented model: gates of the DISTINCT cubes (and XOR terms) over all outputs x and/xor cost + per output (terms-1)+ x or (ESOP: xor) cost; (3) the exact optimum from the harness's own dynamic programme over all 3^n cubes (plus all 2^(n+1) XOR terms for SOPES): per-output covered set (SOP/SOPES) or XOR residual (ESOP) as state, each candidate decided once for a subset of outputs, its gates paid once — affordable for one output up to n=4 and 2..3 outputs up to n=2 (2 outputs: n=3); beyond that only `cost <= sum of the single-output optima` is asserted (sound, incomplete; labelled upper-bound-only). Violation = invalid form, or cost above the optimum / bound. Exhaustive: all single functions n<=2 with rotating cost triples, every single function of n=3 under 9 cost triples of {1,2,3}^3 (quick) / all 27 (thorough) plus 4 (quick) / 10 (thorough) triples with one dear gate (cost 4..12), all ordered pairs n<=1 / n<=2, the pair (f, f) for every 4th (quick) / every (thorough) function of 3 variables, cost triples rotating over 5 fixed ones; generated lists of 1..3 functions, n<=4 (ESOP n<=3), all 27 cost triples. Non-trivial = some output needs >= 2 terms, or sharing between outputs lowers the optimum.",
         assumptions: vec![
             "empty function lists and costs < 1 are outside the quantifier (the optimizers assert costs >= 1)",
             "HiGHS is trusted to terminate; a solver failure shows as a panic of the optimizer and is reported as such",
